@@ -48,6 +48,8 @@ pub struct Space {
     pub top_stmt: usize,
     // not inside (), [] or an object literal/pattern: a `,` here can never be legal
     pub stmt_level: bool,
+    // byte length of the token that follows this space
+    pub next_len: u32,
 }
 
 pub struct Printer<'a> {
@@ -77,6 +79,7 @@ pub struct Printer<'a> {
     // open brackets: true = item context ((), [], object braces), false = block braces
     brackets: Vec<bool>,
     next_brace_is_object: bool,
+    spaces_mark: usize,
 }
 
 const COMMENTS: &[&str] = &["# note", "# ünï ✓ cömment", "#", "# print(\"not code\") @ ~", "#\ttabbed # twice"];
@@ -109,6 +112,7 @@ impl<'a> Printer<'a> {
             pending_op: None,
             brackets: vec![],
             next_brace_is_object: false,
+            spaces_mark: 0,
         }
     }
 
@@ -193,7 +197,7 @@ impl<'a> Printer<'a> {
     fn space(&mut self) {
         if !self.in_slot {
             let stmt_level = !self.brackets.iter().any(|b| *b);
-            self.spaces.push(Space { off: self.out.len() as u64, line: self.line, col: self.col + 1, after_first_print: false, top_stmt: self.cur_top, stmt_level });
+            self.spaces.push(Space { off: self.out.len() as u64, line: self.line, col: self.col + 1, after_first_print: false, top_stmt: self.cur_top, stmt_level, next_len: 0 });
         }
         self.raw(" ");
     }
@@ -275,6 +279,10 @@ impl<'a> Printer<'a> {
                 }
             }
         }
+        for i in self.spaces_mark..self.spaces.len() {
+            self.spaces[i].next_len = text.len() as u32;
+        }
+        self.spaces_mark = self.spaces.len();
         if let Some(n) = self.pending_op.take() {
             let mut f: Vec<String> = self.line_feats.iter().cloned().collect();
             f.extend(self.global_feats.iter().cloned());
